@@ -70,8 +70,8 @@ func init() {
 			Find:    "\tfor i, b := 0, make([]alphabet.QLetter, 0, len(a)); i < max; i, b = i+1, b[:0] {\n\t\tfor _, ss := range a {\n\t\t\tif i < len(ss) {\n\t\t\t\tb = append(b, ss[i])\n\t\t\t} else {\n\t\t\t\tb = append(b, alphabet.QLetter{L: s.Alpha.Gap()})\n\t\t\t}\n\t\t}\n\t\ts.AppendColumns(b)\n\t}\n",
 			Replace: "\tb := make([]alphabet.QLetter, len(a))\n\tfor i := 0; i < max; i++ {\n\t\tfor j := range b {\n\t\t\tb[j] = alphabet.QLetter{L: s.Alpha.Gap()}\n\t\t}\n\t\tfor j, ss := range a {\n\t\t\tif i < len(ss) {\n\t\t\t\tb[j] = ss[i]\n\t\t\t}\n\t\t}\n\t\ts.AppendColumns(b)\n\t}\n"},
 	)
-	borderFind := "\ttable[c] = [3]int{\n\t\tdiag: minInt,\n\t\tleft: minInt,\n\t}\n\tfor i := 2; i < r; i++ {\n"
-	borderRepl := "\tfor i := 1; i < r; i++ {\n"
+	borderFind := "\t\ttable[c] = [3]int{\n\t\t\tdiag: minInt,\n\t\t\tleft: minInt,\n\t\t}\n\t\tfor i := 2; i < r; i++ {\n"
+	borderRepl := "\t\tfor i := 1; i < r; i++ {\n"
 	for _, prop := range []string{"C08", "C09"} {
 		add(prop, variant{Name: "benign-border-loop-from-row-one", File: fitaff, Find: borderFind, Replace: borderRepl, More: []edit{{fitaffq, borderFind, borderRepl}}})
 	}
